@@ -203,8 +203,11 @@ def gen_model(rng, name, depth, lib, top):
     return m
 
 
-def model_text(m, order, io_perm=None):
-    ins, outs = list(m['inputs']), list(m['outputs'])
+def model_text(m, order, io_perm=None, cknames=None):
+    # a sub-model may call its clock port something else than its parent calls its clock
+    cknames = cknames or {}
+    ck = cknames.get(m['name'], 'clk')
+    ins, outs = [ck if i == 'clk' else i for i in m['inputs']], list(m['outputs'])
     if io_perm is not None:
         # the port lines in any order: x[2] is bit 2 wherever it is listed
         r = random.Random(io_perm)
@@ -219,13 +222,16 @@ def model_text(m, order, io_perm=None):
             for plane, outp in c['rows']:
                 lines.append((plane + ' ' + outp).strip())
         elif c['k'] == 'latch':
-            lines.append('.latch %s %s re clk%s' % (c['D'], c['Q'],
-                                                    (' ' + c['init']) if c['init'] is not None else ''))
+            lines.append('.latch %s %s re %s%s' % (c['D'], c['Q'], ck,
+                                                   (' ' + c['init']) if c['init'] is not None else ''))
         elif c['k'] == 'flop':
             lines.append('.subckt %s %s' % (c['cell'], ' '.join(
-                '%s=%s' % (p, c['pins'][p]) for p in ('C', 'D', 'E', 'Q', 'S', 'R') if p in c['pins'])))
+                '%s=%s' % (p, ck if p == 'C' else c['pins'][p])
+                for p in ('C', 'D', 'E', 'Q', 'S', 'R') if p in c['pins'])))
         else:
-            lines.append('.subckt %s %s' % (c['model'], ' '.join('%s=%s' % fa for fa in c['pins'])))
+            lines.append('.subckt %s %s' % (c['model'], ' '.join(
+                '%s=%s' % ((cknames.get(c['model'], 'clk'), ck) if f_ == 'clk' else (f_, a_))
+                for f_, a_ in c['pins'])))
     lines.append('.end')
     return '\n'.join(lines)
 
@@ -244,6 +250,9 @@ def gen_blif(rng):
                 used.add(c['model'])
                 mark([x for x in lib if x['name'] == c['model']][0])
     mark(top)
+    for sub in lib:
+        if sub['uses_clock'] and rng.random() < 0.4:
+            sub['ckname'] = rng.choice(['ck', 'gclk'])
     spare = rng.random() < 0.4      # a model nobody instantiates stays in the file
     models = [top] + [m for m in lib if m['name'] in used or spare]
     return models
@@ -325,6 +334,7 @@ def gen_case(streams, tier):
         used_names = set()
         for m_ in models:
             used_names.update(m_['inputs'])
+            used_names.add(m_.get('ckname'))
         cands = [c for c in ('ck', 'gclk', 'clock') if c not in used_names]
         if cands:
             clock = f.choice(cands)
@@ -348,7 +358,8 @@ def blif_text(case, broken=None):
     parts = []
     for mi in case['morder']:
         t = model_text(case['models'][mi], case['orders'][mi],
-                       case.get('io_perm') if mi == 0 else None)
+                       case.get('io_perm') if mi == 0 else None,
+                       {m_['name']: m_['ckname'] for m_ in case['models'] if m_.get('ckname')})
         if broken is not None and mi == broken['model'] % len(case['models']):
             m = case['models'][mi]
             src = (m['inputs'] + ['zz_x'])[0]
